@@ -53,7 +53,7 @@ import (
 
 func init() {
 	register(&Suite{Name: "ret", Gen: genRet, Exec: execRet,
-		Rule: "meta sets of 1..14 log/metrics segments with ages clustered at the horizon (0, ±1 ms, ±1 s, ±1 h), ties, other orgs, absurd retention hours; volume pass with sizes at the GB boundary; delete protocol cut at every micro-step (what is only queued for the pqmeta files is lost at the cut) then re-run; records of empty results AFTER a pass that (mostly) removed the last pqmeta entry, for survivors and for segments rotated since; non-trivial = at least one victim and one survivor (rec: one victim and one record)"})
+		Rule: "meta sets of 1..14 log/metrics segments with ages clustered at the horizon (0, ±1 ms, ±1 s, ±1 h), ties, other orgs, absurd retention hours; every second log segment lives in an index whose NAME is a word of the data layout (final — about 30 % of the cases have a victim there —, finalx, xfinal, final.final, rotated, ts, active, segmeta.json, the host id), victims' directories looked at on disk; volume pass with sizes at the GB boundary; delete protocol cut at every micro-step (what is only queued for the pqmeta files is lost at the cut) then re-run; records of empty results AFTER a pass that (mostly) removed the last pqmeta entry, for survivors and for segments rotated since; non-trivial = at least one victim and one survivor (rec: one victim and one record)"})
 }
 
 type rseg struct {
